@@ -4,6 +4,7 @@ from rules import export_panics as P
 from rules import determinism as D
 from rules import merge_rules as MR
 from rules import templates as T
+from rules import text_rules as X
 
 ASSUMPTIONS = ["std::sync::Mutex provides mutual exclusion; a MutexGuard releases the lock only when dropped",
                "the textual confluence of merge() over all declaration texts is NOT decided here"]
@@ -20,7 +21,7 @@ def run(ctx):
             res.append(L.units_rule(c, "C05", rule="C05.R16"))
         if fs == "default":
             res.append(MR.writer_reader_rule(ctx.syn, "C05", crate=c))
-            res.append(T.docs_separator_rule(ctx.syn, c, "C05", rule="C05.R9"))
+            res.append(X.docs_separator_rule(ctx.mir(fs)["ts_rs_macros"], c, "C05", rule="C05.R9"))
         for r in res:
             if fs != "default":
                 r.rule += "@" + fs
